@@ -161,7 +161,6 @@ structure RowOk (cfg : Cfg) (a : List Rec) (r : Rec) (b : List Rec) : Prop where
   noreset : ∀ x ∈ a ++ r :: b, resetFlag cfg x = false
   chrono : Chrono (a ++ r :: b)
   distinct : DistinctDoseTimes (a ++ r :: b)
-  tie : (!(r.amt == 0 && firstDoseTie a r) || row0InGroup a r) = true
 
 theorem doseidAt_dose (cfg : Cfg) (a : List Rec) (r : Rec) (b : List Rec)
     (h : RowOk cfg a r b) (hd : r.amt > 0) :
@@ -209,31 +208,6 @@ theorem dosesBefore_last {cfg : Cfg} {a : List Rec} {r : Rec} {b : List Rec} (h 
   have q2 := (List.pairwise_append.mp p2).2.2 y hy d (by simp) (by rw [hdi, hyi]) hyd hdd
   refine ⟨hya, hyi, ?_⟩
   grind
-
-theorem firstDoseTie_eq (a : List Rec) (r : Rec) :
-    firstDoseTie a r = (match dosesBefore a r with | [d] => d.time == r.time | _ => false) := rfl
-
-/-- in the id/time group of the first record of the data set there is at most one earlier dose -/
-theorem row0_ys_nil {cfg : Cfg} {a : List Rec} {r : Rec} {b : List Rec} (h : RowOk cfg a r b)
-    {ys : List Rec} {d : Rec} (hD : dosesBefore a r = ys ++ [d]) (ht : d.time = r.time)
-    (hrow : row0InGroup a r = true) : ys = [] := by
-  obtain ⟨hda, hdi, hdd, hdr, hys⟩ := dosesBefore_last h hD
-  cases ys with
-  | nil => rfl
-  | cons y ys' =>
-    exfalso
-    obtain ⟨hya, hyi, hyt⟩ := hys y (by simp)
-    cases a with
-    | nil => simp at hda
-    | cons r0 a' =>
-      simp only [row0InGroup, sameIT, Bool.and_eq_true, beq_iff_eq] at hrow
-      obtain ⟨h0i, h0t⟩ := hrow
-      have hch := (List.pairwise_append.mp h.chrono).1
-      rw [List.pairwise_cons] at hch
-      rcases List.mem_cons.mp hya with rfl | hya'
-      · grind
-      · have := hch.1 y hya' (by rw [hyi, h0i])
-        grind
 
 theorem doseidAt_nondose (cfg : Cfg) (a : List Rec) (r : Rec) (b : List Rec)
     (h : RowOk cfg a r b) (hd : ¬ r.amt > 0) :
@@ -293,21 +267,20 @@ theorem doseidAt_nondose (cfg : Cfg) (a : List Rec) (r : Rec) (b : List Rec)
           simp [List.mem_filter, sameIT]
         simp only [List.length_append]; omega
       have hlen : (dosesBefore a r).length = ys.length + 1 := by rw [hD]; simp
-      cases hrow : row0InGroup a r with
+      cases hss : ssPos cfg d with
       | true =>
-        have hys0 := row0_ys_nil h hD ht hrow
-        simp [doseidAt, elig, hG, hfilt, hte, hpost, hrow, outSt, hd, hcum, info, hbeq, hlen, hys0]
+        simp [doseidAt, elig, hG, hfilt, hte, hpost, outSt, hd, hcum, info, hbeq, hlen, hss]
       | false =>
-        have hne : ys ≠ [] := by
-          intro hys0
-          have htie := h.tie
-          rw [hrow, firstDoseTie_eq, hD, hys0] at htie
-          simp [hbeq, hte] at htie
-        have hpos : 0 < ys.length := List.length_pos_iff.mpr hne
-        have hgt : ((ys.length : Int) + 1 > 1) := by omega
-        cases hss : ssPos cfg d <;>
-          simp [doseidAt, elig, hG, hfilt, hte, hpost, hrow, outSt, hd, hcum, info, hbeq, hlen,
-            hmult, rgNext, hrf, hss, hgt]
+        cases ys with
+        | nil =>
+          simp [doseidAt, elig, hG, hfilt, hte, hpost, outSt, hd, hcum, info, hbeq, hlen, hss, hmult,
+            decTo1, rgNext, hrf]
+        | cons y ys' =>
+          have hgt : ¬ ((ys'.length : Int) + 1 + 1 ≤ 1) := by omega
+          have hgt' : ((ys'.length : Int) + 1 + 1 > 1) := by omega
+          simp [doseidAt, elig, hG, hfilt, hte, hpost, outSt, hd, hcum, info, hbeq, hlen, hss, hmult,
+            decTo1, rgNext, hrf, hgt, hgt']
+          omega
     · have hte : (d.time == r.time) = false := by simpa using ht
       simp [doseidAt, elig, hG, hfilt, hte, outSt, hd, hcum, info]
 
@@ -315,13 +288,10 @@ theorem doseidAt_nondose (cfg : Cfg) (a : List Rec) (r : Rec) (b : List Rec)
 
 theorem regular_rowOk {cfg : Cfg} {ds : List Rec} (h : Regular cfg ds) {a : List Rec} {r : Rec}
     {b : List Rec} (hs : ds = a ++ r :: b) : RowOk cfg a r b := by
-  obtain ⟨hp, hc, hdd, hft⟩ := h
+  obtain ⟨hp, hc, hdd⟩ := h
   subst hs
   simp only [plain, List.all_eq_true, Bool.and_eq_true, decide_eq_true_eq, Bool.not_eq_true'] at hp
-  refine ⟨fun x hx => (hp x hx).1, fun x hx => (hp x hx).2, hc, hdd, ?_⟩
-  simp only [noFirstDoseTie, List.all_eq_true] at hft
-  have := hft _ (mem_zipMap.mpr ⟨a, r, b, rfl, rfl⟩)
-  simpa using this
+  exact ⟨fun x hx => (hp x hx).1, fun x hx => (hp x hx).2, hc, hdd⟩
 
 theorem doseid_eq_walk {cfg : Cfg} {ds : List Rec} (h : Regular cfg ds) :
     getDoseid cfg ds = walkDoseid cfg ds := by
